@@ -179,7 +179,7 @@ def coq_op(op, step):
     if o == 's_reorder':
         return 'OReorder %s %s %s' % (clist(op['nodes'], cnat), ctarget(op['target']), caction(op['action']))
     if o == 's_free_default_group':
-        return 'OFreeDefaultGroup'
+        return 'OFreeDefaultGroup %s' % cbool(op['all'])
     if o == 's_send_default_groups':
         return 'OSendDefaultGroups'
     if o == 's_dump_osc':
@@ -355,12 +355,14 @@ def coq_case(h, out):
     steps = clist(['(%s, %s)' % (clist([cev(e, lat) for e in st['ev']]), cz(code(op, st))) for op, st in zip(h['ops'], out['steps'])])
     fin = '(%s, %s, %s)' % (cblocks(f['buf_blocks']), cblocks(f['cbus_blocks']), cblocks(f['abus_blocks']))
     objs = '(%s, %s, %s)' % (clist(f['node_ids'], oz), clist(f['bufnums'], oz), clist(f['bus_index'], oz))
-    return '(%s, %s, %s, %s, %s)' % (ops, steps, fin, objs, cbool(h['cls'] == 'valid'))
+    init = '(%s, %s)' % (cz(f.get('default_group', 1)), clist(f.get('default_groups', [1]), cz))
+    return '(%s, %s, %s, %s, %s, %s)' % (ops, steps, fin, objs, cbool(h['cls'] == 'valid'), init)
 
 
 BODY_DEFS = '''
 Definition case : Type := (list op * list (list wev * Z) * (list (Z*Z) * list (Z*Z) * list (Z*Z)) *
-                          (list (option Z) * list (option Z) * list (option Z)) * bool)%type.
+                          (list (option Z) * list (option Z) * list (option Z)) * bool * (Z * list Z))%type.
+Definition init_of (c : case) : st := st_init (fst (snd c)) (snd (snd c)).
 Definition blk_eqb (a b : list (Z * Z)) : bool :=
   (fix go (a b : list (Z * Z)) := match a, b with [] , [] => true | (x, y) :: t, (x', y') :: u => (x =? x') && (y =? y') && go t u | _, _ => false end) a b.
 Definition oz_eqb (a b : option Z) : bool := match a, b with None, None => true | Some x, Some y => x =? y | _, _ => false end.
@@ -371,17 +373,17 @@ Definition node_view (s : st) := map (fun n => match n with Some x => pv_opt (n_
 Definition buf_view (s : st) := map (fun n => match n with Some x => pv_opt (b_num x) | None => None end) (bufs s).
 Definition bus_view (s : st) := map (fun n => match n with Some x => pv_opt (u_index x) | None => None end) (buses s).
 Definition agrees (V : variant) (c : case) : bool :=
-  let '(ops, obs, fin, objs, valid) := c in
-  let '(r, s) := run V st0 ops in
+  let '(ops, obs, fin, objs, valid, _) := c in
+  let '(r, s) := run V (init_of c) ops in
   let '(fb, fc, fa) := fin in
   let '(on, ob, ou) := objs in
   steps_eqb r obs && blk_eqb (bblocks s) fb && blk_eqb (cblocks s) fc && blk_eqb (ablocks s) fa &&
   (* ids held by the client objects at the end (valid histories: a constructor that raises leaves no object) *)
   (negb valid || (ozs_eqb (node_view s) on && ozs_eqb (buf_view s) ob && ozs_eqb (bus_view s) ou)).
 Definition observed_conform (c : case) : bool :=
-  let '(_, obs, _, _, valid) := c in negb valid || forallb (fun o => all_conform (fst o)) obs.
+  let '(_, obs, _, _, valid, _) := c in negb valid || forallb (fun o => all_conform (fst o)) obs.
 Definition first_diff (V : variant) (c : case) : nat :=
-  let '(ops, obs, fin, objs, _) := c in let '(r, s) := run V st0 ops in
+  let '(ops, obs, fin, objs, _, _) := c in let '(r, s) := run V (init_of c) ops in
   (fix go (i : nat) (m : list (list wev * option err)) (p : list (list wev * Z)) : nat :=
     match m, p with (e, x) :: t, (e', cc) :: u => if wevs_eqb e e' && (err_code x =? cc) then go (S i) t u else i | _, _ => i end) O r obs.
 '''
@@ -434,6 +436,9 @@ def monitors(h, out, default_group=1):
     bus_chans = {}
     cache = set()               # expected keys of Buffer._server_caches[server]
     lat = out['final'].get('latency')
+    default_group = out['final'].get('default_group', default_group)
+    node_known.update(out['final'].get('default_groups', []))
+    node_known.add(default_group)
     bus_objs, bus_audio = {}, {}
     depth = 0
     pending = []                # messages expected at the outermost flush, for M5
@@ -1081,7 +1086,7 @@ def diagnose(ctx, h, o):
     txt = HEADER + BODY_DEFS + '''
 Definition c : case := %s.
 Eval vm_compute in first_diff repaired c.
-Eval vm_compute in let '(ops, obs, fin, objs, _) := c in let '(r, s) := run repaired st0 ops in
+Eval vm_compute in let '(ops, obs, fin, objs, _, _) := c in let '(r, s) := run repaired (init_of c) ops in
   (nth_error r (first_diff repaired c), final_view s, (node_view s, buf_view s, bus_view s)).
 ''' % coq_case(h, o)
     rc, out = ctx.coq('diag', txt)
@@ -1118,12 +1123,12 @@ def correspond(ctx):
     hs_rt += [dict(c17_gen.gen_history(rng, 'misuse', sync=True), mode='rt') for _ in range(ctx.n(40, 300))]
 
     def run_batch(batch, mode):
-        r = ctx.impl('c17_hist', {'histories': [h['ops'] for h in batch], 'latencies': [h.get('latency') for h in batch]},
-                     mode=mode, timeout=900)
+        r = ctx.impl('c17_hist', {'histories': [h['ops'] for h in batch], 'latencies': [h.get('latency') for h in batch],
+                                  'configs': [h.get('config') for h in batch]}, mode=mode, timeout=900)
         SD_NBYTES[0] = r['sd_nbytes']
         valid = [h for h in batch if h['cls'] == 'valid']
-        fl = ctx.impl('c17_hist', {'histories': [strip_binds(h['ops']) for h in valid],
-                                   'latencies': [h.get('latency') for h in valid]}, mode=mode, timeout=900)['out']
+        fl = ctx.impl('c17_hist', {'histories': [strip_binds(h['ops']) for h in valid], 'latencies': [h.get('latency') for h in valid],
+                                   'configs': [h.get('config') for h in valid]}, mode=mode, timeout=900)['out']
         return r['out'], fl
     outs, flat = run_batch(hs, 'nrt')
     outs_rt, flat_rt = run_batch(hs_rt, 'rt')
@@ -1133,7 +1138,8 @@ def correspond(ctx):
         cl = rng.choice(['valid', 'valid', 'valid', 'misuse'])
         pairs.append((c17_gen.gen_history(rng, cl, n_ops=rng.choice([4, 8, 12])), to_other_server(c17_gen.gen_history(rng, cl, n_ops=rng.choice([4, 8, 12])))))
     merged = [merge(rng, a, b) for a, b in pairs]
-    mres = ctx.impl('c17_hist', {'histories': merged, 'latencies': [[a.get('latency'), b.get('latency')] for a, b in pairs]}, timeout=900)['out']
+    mres = ctx.impl('c17_hist', {'histories': merged, 'latencies': [[a.get('latency'), b.get('latency')] for a, b in pairs],
+                                 'configs': [[a.get('config'), b.get('config')] for a, b in pairs]}, timeout=900)['out']
     hs_m, outs_m = [], []
     for mg, o, pr in zip(merged, mres, pairs):
         if o.get('skipped'):
@@ -1148,8 +1154,8 @@ def correspond(ctx):
         for hk, ok in split_multi(mg, o, pr):
             hs_m.append(hk); outs_m.append(ok)
     valid_m = [h for h in hs_m if h['cls'] == 'valid']
-    flat_m = ctx.impl('c17_hist', {'histories': [strip_binds(h['ops']) for h in valid_m],
-                                   'latencies': [h.get('latency') for h in valid_m]}, timeout=900)['out']
+    flat_m = ctx.impl('c17_hist', {'histories': [strip_binds(h['ops']) for h in valid_m], 'latencies': [h.get('latency') for h in valid_m],
+                                   'configs': [h.get('config') for h in valid_m]}, timeout=900)['out']
     c.count('mode:two-server-histories', len(merged))
     hs = hs + hs_rt + hs_m
     outs = outs + outs_rt + outs_m
@@ -1195,7 +1201,7 @@ def correspond(ctx):
     # how many of the valid histories lie inside the domain of the theorems (wf_ops of proofs/C17_run.v)
     vitems = [it for it, i in zip(items, idx) if hs[i]['cls'] == 'valid']
     vidx = [i for i in idx if hs[i]['cls'] == 'valid']
-    dbody = BODY_DEFS + '\nEval vm_compute in bad_idx (fun c : case => wf_ops 3 st0 (fst (fst (fst (fst c))))) cases.'
+    dbody = BODY_DEFS + '\nEval vm_compute in bad_idx (fun c : case => wf_ops 3 (init_of c) (fst (fst (fst (fst (fst c)))))) cases.'
     outside, derrs = fw.check_shards(ctx, 'dom', HEADER, vitems, dbody, shard=60)
     c.count('domain:valid-histories-inside-wf_ops', len(vitems) - len(outside))
     c.count('domain:valid-histories-outside-wf_ops', len(outside))
@@ -1267,8 +1273,9 @@ def search(ctx, failures):
     hs = [dict(h) for h in FIXED_HISTORIES] + load_corpus() + [c17_gen.gen_history(rng, 'valid') for _ in range(ctx.n(800, 8000))]
     hs = [h for h in hs if h['cls'] == 'valid']
     lats = [h.get('latency') for h in hs]
-    outs = ctx.impl('c17_hist', {'histories': [h['ops'] for h in hs], 'latencies': lats}, timeout=900)['out']
-    flat = ctx.impl('c17_hist', {'histories': [strip_binds(h['ops']) for h in hs], 'latencies': lats}, timeout=900)['out']
+    cfgs = [h.get('config') for h in hs]
+    outs = ctx.impl('c17_hist', {'histories': [h['ops'] for h in hs], 'latencies': lats, 'configs': cfgs}, timeout=900)['out']
+    flat = ctx.impl('c17_hist', {'histories': [strip_binds(h['ops']) for h in hs], 'latencies': lats, 'configs': cfgs}, timeout=900)['out']
     found, seen = [], set()
     for h, o, f in zip(hs, outs, flat):
         if not usable(o) or not usable(f):
@@ -1282,13 +1289,13 @@ def search(ctx, failures):
         seen.add(key)
 
         def still_bad(hh):
-            oo = ctx.impl('c17_hist', {'histories': [hh['ops'], strip_binds(hh['ops'])], 'latencies': [hh.get('latency')] * 2}, timeout=120)['out']
+            oo = ctx.impl('c17_hist', {'histories': [hh['ops'], strip_binds(hh['ops'])], 'latencies': [hh.get('latency')] * 2, 'configs': [hh.get('config')] * 2}, timeout=120)['out']
             if not usable(oo[0]) or not usable(oo[1]):
                 return False
             tt = monitors(hh, oo[0]) + bind_metamorphic(hh, oo[0], oo[1])
             return bool(tt) and (classify(tt) or tt[0][1].split(':')[1][:40]) == key
         hmin = shrink(ctx, h, still_bad) if len(h['ops']) > 4 else h
-        oo = ctx.impl('c17_hist', {'histories': [hmin['ops'], strip_binds(hmin['ops'])], 'latencies': [hmin.get('latency')] * 2}, timeout=120)['out']
+        oo = ctx.impl('c17_hist', {'histories': [hmin['ops'], strip_binds(hmin['ops'])], 'latencies': [hmin.get('latency')] * 2, 'configs': [hmin.get('config')] * 2}, timeout=120)['out']
         tt = monitors(hmin, oo[0]) + bind_metamorphic(hmin, oo[0], oo[1])
         if not tt:
             continue
